@@ -109,6 +109,12 @@ pub fn handle_watch(conn: &mut Connection, parts: &[RespFrame], storage: &Arc<St
             RespFrame::BulkString(Some(bytes)) => {
                 let key = bytes.as_ref().clone();
                 
+                // A key this connection already watches keeps the baseline of its first WATCH:
+                // a change made since then must still abort the EXEC
+                if conn.transaction_state.watched_keys.contains_key(&(conn.db_index, key.clone())) {
+                    continue;
+                }
+                
                 // Register the watch with storage engine
                 match storage.register_watch(conn.db_index, &key) {
                     Ok(baseline_counter) => {
